@@ -37,7 +37,8 @@ import (
 //     tag "json" (text before the first comma, trimmed of spaces), else the field name with
 //     an ASCII upper-case first letter lowered; alias "-" skips; duplicate alias is an error.
 //   - time.Time: UTC flag iff Location()==time.UTC (pointer identity, so FixedZone("UTC",0)
-//     and Local are "local"); fields are the wall clock in the time's own location; date-only
+//     and Local are "local"); a time in any other location than UTC/Local is converted with
+//     t.Local() first (see ConvertForeignZones); fields are then the wall clock; date-only
 //     when the clock is 00:00:00.0 (also for 1970-01-01), time-only when the date is
 //     1970-01-01 and the clock is not zero. Years outside 0..9999 are an error.
 //   - sharing in ref mode is by pointer identity (type+address) of *struct, *time.Time,
@@ -484,7 +485,19 @@ func (d *denoter) field(fv reflect.Value) (*Value, error) {
 	return d.val(fv)
 }
 
-func fillTime(t *time.Time, v *Value) error {
+// ConvertForeignZones selects how a time.Time whose location is neither time.UTC nor
+// time.Local is denoted. The wire format only has "UTC" ('Z') and "local" (';').
+// true (default): the time is first converted with t.Local(), so the instant survives; this
+// is what the library does since its FixedZone fix ("express any other zone as local time").
+// false: the wall clock of the time's own location is kept and flagged local, which is what
+// the unfixed library did (the instant then changes on the way back).
+var ConvertForeignZones = true
+
+func fillTime(tp *time.Time, v *Value) error {
+	t := *tp
+	if loc := t.Location(); ConvertForeignZones && loc != time.UTC && loc != time.Local {
+		t = t.Local()
+	}
 	y, mo, dd := t.Date()
 	h, mi, s := t.Clock()
 	ns := t.Nanosecond()
